@@ -17,6 +17,7 @@ mod obs;
 mod plan;
 mod rng;
 mod runner;
+mod supervise;
 mod scen_bigram;
 mod scen_build;
 mod scen_corpus;
@@ -105,6 +106,8 @@ fn main() {
     let mut xsummary: Option<String> = None;
     let mut extra_json: Option<String> = None;
     let mut digests_out: Option<String> = None;
+    let mut exec_run: Option<u64> = None;
+    let mut extra_only = false;
     let mut i = 0;
     while i < args.len() {
         let a = args[i].as_str();
@@ -146,6 +149,8 @@ fn main() {
             "--xsummary" => xsummary = Some(val()),
             "--extra-json" => extra_json = Some(val()),
             "--digests" => digests_out = Some(val()),
+            "--exec-run" => exec_run = val().parse().ok(),
+            "--extra-only" => extra_only = true,
             _ => {
                 eprintln!("unknown argument {a}");
                 std::process::exit(2)
@@ -161,6 +166,12 @@ fn main() {
         eprintln!("no scenario for property {prop}");
         std::process::exit(2)
     };
+    // crash containment (supervise.rs): batches and replays run in a child process
+    let supervised = xexport.is_none() && ximport.is_none() && dump.is_none() && !survey && exec_run.is_none();
+    if supervised && std::env::var_os(supervise::ENV_CHILD).is_none() {
+        std::process::exit(supervise::parent(scen.as_ref(), tier, seed, replay.as_deref(), &args));
+    }
+    supervise::child_init();
     let out = isolate_output();
     crate::core::install_panic_hook();
     let opts = runner::Options {
@@ -190,6 +201,10 @@ fn main() {
     }
     let status = if let Some(path) = replay {
         runner::replay(scen.as_ref(), &path, &opts)
+    } else if let Some(run) = exec_run {
+        runner::exec_run(scen.as_ref(), run, &opts)
+    } else if extra_only {
+        runner::extra_only(scen.as_ref(), &opts)
     } else if let Some(run) = dump {
         let mut rng = rng::Rng::new(rng::run_seed(seed, scen.id(), run));
         let plan = scen.plan(&mut rng, tier, seed, run);
